@@ -24,7 +24,8 @@ RULE = ("helper units: (m, k, y, S_inv) cases, m in {1,2,3,4,5,8,18,32}, k in {0
         "outside a band of 64 eps sum|y_i Sinv_ij y_j|.  filter units: generated C++ filter + Python filter "
         "for direct-observation models where S is exactly the identity (boundary reached through the "
         "filter) and for random models at 0.5x/0.999x/1.001x/2x/1e6x the threshold radius, enabled and "
-        "disabled.  non-trivial = case with m >= 2 within 1e-6 relative of the threshold, or a filter-level "
+        "disabled; thresholds handed over as float, int, np.int64, np.float64 and np.float32 (float32 only away "
+        "from the boundary); compiled threshold read back.  non-trivial = case with m >= 2 within 1e-6 relative of the threshold, or a filter-level "
         "discard; distinct = sha256 of (m, k, placement, index) resp. definition")
 ASSUMPTIONS = [
     "k*sqrt(2m)+m is evaluated identically in IEEE double by Python and C++ (no FMA contraction on the "
